@@ -208,6 +208,22 @@ impl<K, V, A: Allocator> CaoHashMap<K, V, A> {
     {
         debug_assert!(h != 0, "Bad handle, 0 values are reserved");
 
+        // grow before storing a new key, so that a failed allocation leaves the map as it was
+        // (no grow is triggered if the key overrides an existing value)
+        let i = self.find_ind(h, &key);
+        if self.hashes()[i] == 0 && Self::needs_grow(self.count + 1, self.capacity) {
+            self.grow()?;
+        }
+        self.insert_no_grow(h, key, value);
+        Ok(())
+    }
+
+    /// # Safety
+    /// Caller must ensure that the hash is correct for the key and that the map has a free bucket
+    unsafe fn insert_no_grow(&mut self, h: u64, key: K, value: V)
+    where
+        K: Eq,
+    {
         // find the bucket
         let hashes = self.hashes();
         let keys = self.keys.as_ptr();
@@ -229,11 +245,6 @@ impl<K, V, A: Allocator> CaoHashMap<K, V, A> {
         }
         std::ptr::write(keys.add(i), key);
         std::ptr::write(values.add(i), value);
-        // delaying grow so that no grow is triggered if the key overrides an existing value
-        if Self::needs_grow(self.count, self.capacity) {
-            self.grow()?;
-        }
-        Ok(())
     }
 
     fn needs_grow(count: usize, capacity: usize) -> bool {
@@ -251,7 +262,11 @@ impl<K, V, A: Allocator> CaoHashMap<K, V, A> {
     where
         K: Eq,
     {
-        let new_cap = (self.capacity.max(2) * 3) / 2;
+        let mut new_cap = (self.capacity.max(2) * 3) / 2;
+        // one more entry has to fit under the max load
+        while Self::needs_grow(self.count + 1, new_cap) {
+            new_cap = (new_cap * 3) / 2;
+        }
         debug_assert!(new_cap > self.capacity);
         unsafe { self.adjust_capacity(new_cap) }
     }
@@ -273,7 +288,8 @@ impl<K, V, A: Allocator> CaoHashMap<K, V, A> {
             if hash != 0 {
                 let key = std::ptr::read(keys.as_ptr().add(i));
                 let val = std::ptr::read(values.as_ptr().add(i));
-                self.insert_with_hint(hash, key, val)?;
+                // must not allocate: a failure here would lose the entries not yet moved
+                self.insert_no_grow(hash, key, val);
             }
         }
 
